@@ -97,6 +97,27 @@ def _direct_random(ctx, f):
     return None
 
 
+def _callees_no_preset(ctx, f):
+    """callees of f, not following the dispatch through the preset tables
+    (``_PRESETS_PATH[name]`` is the union of every registered optimizer: which one
+    runs is decided by the name, see C17-PRESET)"""
+    cache = ctx.__dict__.setdefault("_c17_callees", {})
+    if f.key in cache:
+        return cache[f.key]
+    out = []
+    for _, res in ctx.r.calls_in(f):
+        if (res.via or "").startswith("registry _PRESETS"):
+            continue
+        for c in res.callees:
+            if c not in out:
+                out.append(c)
+    for nf in ctx.p.nested_funcs(f):
+        if nf not in out:
+            out.append(nf)
+    cache[f.key] = out
+    return out
+
+
 def consuming(ctx):
     """key -> reason for every function that may consume randomness (fixpoint)"""
     if hasattr(ctx, "_c17_cons"):
@@ -113,7 +134,7 @@ def consuming(ctx):
         for f in funcs:
             if f.key in cons:
                 continue
-            for c in ctx.r.callees_of(f):
+            for c in _callees_no_preset(ctx, f):
                 if c.key in cons and c is not f:
                     cons[f.key] = f"calls {c.qual}"
                     changed = True
@@ -385,6 +406,105 @@ def rule_global(ctx):
     return r
 
 
+# ---- PRESET ----------------------------------------------------------------
+
+OPT_PARAMS = ("optimize",)
+
+
+def preset_table(ctx):
+    """preset name -> [Func] the path optimizer registered under that name
+    (``register_preset("name", optimizer, ...)`` at module level, also inside
+    ``try:`` blocks)."""
+    if hasattr(ctx, "_c17_presets"):
+        return ctx._c17_presets
+    from ..engine.program import Func
+    out = {}
+    for m in ctx.p.modules.values():
+        fake = Func(ast.parse("def _m(): pass").body[0], m)
+        stack = list(m.tree.body)
+        while stack:
+            st = stack.pop()
+            if isinstance(st, (ast.FunctionDef, ast.AsyncFunctionDef, ast.ClassDef)):
+                continue
+            if isinstance(st, ast.Expr) and isinstance(st.value, ast.Call) and \
+                    dotted(st.value.func) == "register_preset":
+                call = st.value
+                kw = {k.arg: k.value for k in call.keywords}
+                name = call.args[0] if call.args else kw.get("preset")
+                opt = call.args[1] if len(call.args) > 1 else kw.get("optimizer")
+                if isinstance(name, ast.Constant) and isinstance(name.value, str) and opt is not None:
+                    res = ctx.r.resolve_callable_expr(fake, opt)
+                    out[name.value] = (list(res.callees), f"{m.path}:{call.lineno}", dict(res.bound))
+            for fld in ("body", "orelse", "finalbody"):
+                stack.extend(getattr(st, fld, []) or [])
+            for h in getattr(st, "handlers", []) or []:
+                stack.extend(h.body)
+    ctx._c17_presets = out
+    return out
+
+
+def _str_values(ctx, f, e, depth=0):
+    """string constants an ``optimize=`` argument may evaluate to (None: not a string preset)"""
+    if isinstance(e, ast.Constant):
+        return {e.value} if isinstance(e.value, str) else None
+    if isinstance(e, ast.Name) and depth < 3:
+        g = f
+        while g is not None:
+            la = ctx.r.local_assignments(g).get(e.id, [])
+            if la:
+                vals = set()
+                for v in la:
+                    sv = _str_values(ctx, g, v, depth + 1)
+                    if sv:
+                        vals |= sv
+                return vals or None
+            if e.id in g.params:
+                d = g.defaults().get(e.id)
+                return _str_values(ctx, g, d, depth + 1) if d is not None else None
+            g = g.parent_func
+    return None
+
+
+def rule_preset(ctx):
+    """A seeded operation that delegates part of its work to a named preset optimizer
+    (``optimize="..."``) stays a function of its seed only if that preset is
+    deterministic: the preset registered under the name must not consume randomness,
+    because a string cannot carry the seed."""
+    r = RuleResult("C17-PRESET", "named sub-optimizers used by seeded operations are deterministic", 3)
+    cons = consuming(ctx)
+    table = preset_table(ctx)
+    C.require(len(table) >= 8, f"preset registrations not recognised ({len(table)})")
+    for f, why in seeded_contexts(ctx):
+        for call, res in ctx.r.calls_in(f):
+            exprs = [(k.arg, k.value) for k in call.keywords if k.arg in OPT_PARAMS]
+            # (an ``optimize`` parameter left at the callee's default is not followed: the
+            # package's defaults of that kind - from_path, autocomplete - only matter for
+            # incomplete paths, which these contexts do not produce)
+            for label, e in exprs:
+                vals = _str_values(ctx, f, e)
+                if not vals:
+                    continue
+                for s_ in sorted(vals):
+                    key = ctx.key(f, "C17-PRESET", f"{C.call_name(call)}[{s_}]")
+                    where = C.loc(f, call)
+                    if s_ not in table:
+                        r.exempt(key, where, f"preset '{s_}' is not registered by the package "
+                                 "sources analysed (third-party or optional)")
+                        continue
+                    callees, regloc, bound = table[s_]
+                    rnd = [g for g in callees if g.key in cons]
+                    if not rnd:
+                        r.ok(key, where, f"preset '{s_}' -> {', '.join(g.qual for g in callees) or '?'}: "
+                             "consumes no randomness", registered=regloc)
+                    else:
+                        g = rnd[0]
+                        r.violation(key, where, f"preset '{s_}' ({label}) resolves to {g.qual}, which "
+                                    f"consumes randomness ({cons[g.key]}) and cannot receive this "
+                                    "operation's seed through a name: the seeded operation is not a "
+                                    "function of its arguments", registered=regloc)
+    return r
+
+
 # ---- HASHORD ---------------------------------------------------------------
 
 ORDER_INSENSITIVE_CALLS = {"sorted", "len", "set", "frozenset", "sum", "any", "all", "min",
@@ -416,10 +536,27 @@ def _is_set_expr(ctx, f, e, depth=0):
             return True
         return False
     if isinstance(e, ast.BinOp) and isinstance(e.op, (ast.BitOr, ast.BitAnd, ast.Sub, ast.BitXor)):
-        return _is_set_expr(ctx, f, e.left, depth + 1) or _is_set_expr(ctx, f, e.right, depth + 1)
+        # set algebra, including on dict views (``d.keys() - other`` is a plain set)
+        def view(x):
+            return isinstance(x, ast.Call) and isinstance(x.func, ast.Attribute) and \
+                x.func.attr in ("keys", "items") and not x.args
+        return _is_set_expr(ctx, f, e.left, depth + 1) or _is_set_expr(ctx, f, e.right, depth + 1) \
+            or view(e.left) or view(e.right)
     if isinstance(e, ast.Name):
+        # may-analysis: hash-ordered if any definition of the name is a set
+        # (the definitions that reach this use, so a later ``x = sorted(x)`` counts)
+        try:
+            fl = ctx.flow(f)
+            at = fl.node_of_expr(e)
+        except Exception:
+            at = None
+        if at is not None:
+            defs = [d for d in fl.defs_reaching(e.id, at) if d.kind in ("assign", "aug")]
+            if defs:
+                return any(d.value is not None and d.index is None and
+                           _is_set_expr(ctx, f, d.value, depth + 1) for d in defs)
         la = ctx.r.local_assignments(f).get(e.id, [])
-        return bool(la) and all(_is_set_expr(ctx, f, v, depth + 1) for v in la)
+        return any(_is_set_expr(ctx, f, v, depth + 1) for v in la)
     return False
 
 
@@ -482,6 +619,11 @@ def _consumer(func, node, loop=None):
         return "unknown", "comprehension"
     if isinstance(par, ast.Call):
         d = dotted(par.func) or (par.func.attr if isinstance(par.func, ast.Attribute) else "")
+        if d in ("max", "min", "sorted") and any(k.arg == "key" for k in par.keywords):
+            # elements that compare equal under the key keep iteration order (first
+            # maximum / stable sort), and a key that draws random numbers assigns the
+            # draws in iteration order
+            return "sensitive", f"{d}(..., key=...) breaks ties (and evaluates the key) in iteration order"
         if d in ORDER_INSENSITIVE_CALLS or d.split(".")[-1] in ORDER_INSENSITIVE_CALLS:
             return "insensitive", f"consumed by {d}()"
         if d in ("tuple", "list", "iter", "next", "enumerate", "zip", "map", "reversed",
@@ -566,4 +708,4 @@ def rule_hashord(ctx):
     return r
 
 
-RULES = [rule_plumb, rule_global, rule_hashord]
+RULES = [rule_plumb, rule_global, rule_preset, rule_hashord]
